@@ -4,6 +4,8 @@ if it is not 651/0, roll the whole batch back.  usage: apply_batch.py <batch nam
 import subprocess, sys, os
 PF = "/verif/work/proposed_fixes/"
 MSG = {
+ "C19_gglwe_to_ggsw_key_compressed.diff": "fix: compressed GGLWE-to-GGSW key encryption stores the per-cell seeds it drew; add the missing decompression impl\n\nThe seeds were written into a to_mut() temporary holding clones of the seed vectors, so the object kept all-zero seeds and\ndecompression regenerated every mask from Source::new([0;32]): the decompressed key was not an encryption under sk.\nGGLWEToGGSWKeyDecompress had no impl for Module<B>.",
+ "C01_sk_plaintext_radix.diff": "fix: secret-key encryption asserts that the plaintext uses the ciphertext's limb radix, as the public-key path does\n\nglwe_encrypt_sk, glwe_compressed_encrypt_sk and lwe_encrypt_sk never looked at pt.base2k: a plaintext of another radix was\nadded limb for limb at the wrong torus position and silently decrypted to another message.",
  "C18_hal_read_from_checked.diff": "fix: VecZnx/ScalarZnx/MatZnx::read_from use checked header arithmetic and keep max_size within the receiver\n\nThe header products n*cols*size*8 overflowed (debug: panic, release: wrapped acceptance committing e.g. n = 2^61 over a\n64-byte buffer) and max_size was committed unchecked, so that set_size(max_size) then addressed limbs outside the buffer.",
  "C18_core_wrappers_commit_after.diff": "fix: core layouts commit deserialised metadata only after the inner read succeeded\n\nGLWE, LWE, GGLWE, GGSW, keys and compressed forms assigned base2k, dsize, rank, seeds straight from the stream before\ndelegating, so a truncated stream returned Err with the metadata already changed; base2k = 0 / dsize = 0 were accepted\n(later size queries divide by zero) and the seed vector was allocated from an unchecked count.",
  "C18_binfhe_dist_commit_after.diff": "fix: blind-rotation key read_from commits the distribution after all keys were read",
@@ -30,6 +32,7 @@ BATCH = {
  "c345": ["C05_fft64_cnv_apply_res_col.diff", "C05_relinearize_tensor_radix.diff", "C05_gglwe_product_dsize3_stale_limb.diff", "C04_cmux_stale_accumulator.diff", "C04_gglwe_external_product_res_dnum.diff", "C03_glwe_packer_cross_radix.diff"],
  "c12": ["C12_cnv_size_query_args.diff", "C12_big_normalize_tmp_bytes.diff", "C12_keyswitch_cross_radix_big_normalize.diff", "C12_glwe_trace_sizing.diff", "C12_fhe_uint_prepare_thread_size.diff", "C12_ggsw_expand_rows_res_dft.diff"],
  "misc1": ["C08_encode_first_carry.diff", "C15_cbt_exponent_trace.diff"],
+ "enc": ["C19_gglwe_to_ggsw_key_compressed.diff", "C01_sk_plaintext_radix.diff"],
  "c16": ["C16_dot_product_ct_mixed_meta_scale.diff", "C16_many_single_input_stale_meta.diff", "C16_mul_noncompact_operand_error.diff"],
 }
 def sh(*a, **k): return subprocess.run(a, capture_output=True, text=True, **k)
